@@ -6,12 +6,14 @@ import (
 	"os"
 
 	"dawgsverif/areas/cachearea"
+	"dawgsverif/areas/entityarea"
 )
 
 type cmd func(args []string)
 
 var areas = map[string]map[string]cmd{
-	"cache": {"replay": cachearea.Replay, "conc": cachearea.Conc},
+	"cache":  {"replay": cachearea.Replay, "conc": cachearea.Conc},
+	"entity": {"replay": entityarea.Replay},
 }
 
 func main() {
